@@ -107,7 +107,13 @@ class Contract:
         max_paths=4000,
         extra_inline=(),
         may_raise=(),
+        entry_facts=None,
+        exit_facts=None,
+        allocates=False,
     ):
+        self.entry_facts = entry_facts  # fn(c) -> [Fact] assumed at function entry (verification only)
+        self.exit_facts = exit_facts  # fn(c) -> [Fact] assumed before the exit obligations
+        self.allocates = allocates
         self.qname = qname
         self.params = params or {}
         self.ret = ret
@@ -130,7 +136,8 @@ class Contract:
 
 
 class Loop:
-    def __init__(self, inv=None, modifies=None, decreases=None):
+    def __init__(self, inv=None, modifies=None, decreases=None, lemmas=None):
+        self.lemmas = lemmas  # fn(c, L, phase) -> [Fact]; phase in start|end|break|exit
         self.inv = inv  # fn(c, L) -> Bool | {name: Bool}
         self.modifies = modifies  # fn(c) -> {heap array: [ids]|ANY}; None => function's modifies
         self.decreases = decreases
